@@ -609,6 +609,7 @@ func main() {
 	writeFile("RoundLock.lean", genRoundLock(facts))
 	writeFile("MoreFacts.lean", genMoreFacts(facts))
 	writeFile("SeedFacts.lean", genSeedFacts(facts))
+	writeFile("SecretUses.lean", genSecretUses(facts))
 	genFacts(facts)
 	facts["machines"] = ms
 	bz, _ := json.MarshalIndent(facts, "", " ")
